@@ -659,7 +659,7 @@ Section Scheme.
   Qed.
 End Scheme.
 
-(* decode never reports the model's own fuel error, on any input *)
+(* two accepted byte strings with the same fields are the same byte string *)
 Lemma decode_two_encodings b1 b2 r1 r2 :
   bytesb b1 = true -> bytesb b2 = true -> decode b1 = EOk r1 -> decode b2 = EOk r2 ->
   r_sig r1 = r_sig r2 -> r_seq r1 = r_seq r2 -> r_pairs r1 = r_pairs r2 -> b1 = b2.
@@ -668,3 +668,74 @@ Proof.
   apply (decode_iff _ _ H1) in D1 as (-> & _). apply (decode_iff _ _ H2) in D2 as (-> & _).
   unfold encode. rewrite Es, Eq, Ep. reflexivity.
 Qed.
+
+(* the model's own fuel error never surfaces: every loop iteration consumes input *)
+Lemma pairs_no_fuel f : forall prev i,
+  bytesb i = true -> (length i < f)%nat -> pairs_ f prev (lst i) <> EErr EFuel.
+Proof.
+  induction f as [|f IH]; intros prev i Hb Hf; [lia|]. cbn [pairs_].
+  destruct (byteslice_ (lst i)) as [[k s1]|e] eqn:E1; [|destruct e; discriminate].
+  destruct (byteslice_lst_inv _ _ _ Hb E1) as (i1 & -> & ->).
+  pose proof (bytesb_app_r _ _ Hb) as Hb1.
+  destruct (raw_ (lst i1)) as [[v s2]|e] eqn:E2; [|destruct e; discriminate].
+  destruct (raw_lst_inv _ _ _ Hb1 E2) as (i2 & -> & -> & _).
+  pose proof (bytesb_app_r _ _ Hb1) as Hb2.
+  assert (Hrec : pairs_ f (Some k) (lst i2) <> EErr EFuel).
+  { apply IH; [exact Hb2|]. pose proof (enc_str_len_pos k). rewrite !app_length in Hf. lia. }
+  assert (Hcont : match pairs_ f (Some k) (lst i2) with
+                  | EOk (l0, s3) => EOk ((k, v) :: l0, s3)
+                  | EErr e => EErr e
+                  end <> EErr EFuel).
+  { destruct (pairs_ f (Some k) (lst i2)) as [[l0 s3]|e]; [discriminate|].
+    intros E; inversion E; subst e. apply Hrec. reflexivity. }
+  destruct prev as [p|]; [|exact Hcont].
+  destruct (bytes_eqb k p); [discriminate|]. destruct (bytes_ltb k p); [discriminate|]. exact Hcont.
+Qed.
+
+Theorem decode_no_fuel b : bytesb b = true -> decode b <> EErr EFuel.
+Proof.
+  intros Hb. unfold decode, decode_record.
+  destruct (raw_ (init b)) as [[raw s1]|] eqn:E0; [|discriminate].
+  destruct (raw_init_inv _ _ _ Hb E0) as (Hsplit & k & size & bv & h & c & Hspec & H64 & Hl & ->).
+  destruct (SizeLimit <? lenN (h ++ c)); [discriminate|].
+  assert (Hbr : bytesb (h ++ c) = true) by (rewrite Hsplit in Hb; eapply bytesb_app_l; eauto).
+  rewrite (inner_kind k size bv h c Hspec H64 Hl).
+  destruct k; try discriminate. rewrite (inner_list size h c Hl).
+  pose proof (bytesb_app_r _ _ Hbr) as Hbc.
+  destruct (byteslice_ (lst c)) as [[sig s3]|e] eqn:E1; [|destruct e; discriminate].
+  destruct (byteslice_lst_inv _ _ _ Hbc E1) as (i3 & -> & ->).
+  pose proof (bytesb_app_r _ _ Hbc) as Hb3.
+  destruct (uint_ 64 (lst i3)) as [[seq s4]|e] eqn:E2; [|destruct e; discriminate].
+  destruct (uint_lst_inv _ _ _ Hb3 E2) as (i4 & -> & -> & Hseq).
+  pose proof (bytesb_app_r _ _ Hb3) as Hb4.
+  destruct (pairs_ _ None (lst i4)) as [[ps s5]|e] eqn:E3.
+  - destruct (list_end s5); [destruct (inp s1); discriminate|discriminate].
+  - intros E; inversion E; subst e. revert E3. apply pairs_no_fuel; [exact Hb4|].
+    rewrite !app_length. lia.
+Qed.
+
+(* ---------- a concrete record (non-vacuity) ----------
+   The example record of EIP-778 (seq 1, keys id, ip, secp256k1, udp).  With the
+   abstract verifier answering true it is accepted, its four keys are sorted,
+   both re-encodings give back the input; with one pair swapped, a trailing
+   byte, or the verifier answering false it is rejected. *)
+Definition eip778_example : list N :=
+  [248; 132; 184; 64; 112; 152; 173; 134; 91; 0; 165; 130; 5; 25; 64; 203; 156; 243; 104; 54; 87; 36; 17; 164; 114; 120; 120; 48; 119; 1; 21; 153; 237; 92; 209; 107; 118; 242; 99; 95; 78; 35; 71; 56; 243; 8; 19; 168; 158; 185; 19; 126; 62; 61; 245; 38; 110; 58; 31; 17; 223; 114; 236; 241; 20; 92; 203; 156; 1; 130; 105; 100; 130; 118; 52; 130; 105; 112; 132; 127; 0; 0; 1; 137; 115; 101; 99; 112; 50; 53; 54; 107; 49; 161; 3; 202; 99; 76; 174; 13; 73; 172; 180; 1; 216; 164; 198; 182; 254; 140; 85; 183; 13; 17; 91; 244; 0; 118; 156; 193; 64; 15; 50; 88; 205; 49; 56; 131; 117; 100; 112; 130; 118; 95].
+
+Definition example_ok : bool :=
+  let H (x : list N) := x in
+  let yes (_ _ _ : list N) := true in
+  let no (_ _ _ : list N) := false in
+  match accept H yes eip778_example with
+  | EOk r =>
+      (r_seq r =? 1) && (lenN (r_pairs r) =? 4) && sortedb (keys r) &&
+      list_eqb N.eqb (encode r) eip778_example && list_eqb N.eqb (encode_rlp r) eip778_example &&
+      (lenN eip778_example =? 134) &&
+      match accept H no eip778_example with EErr EInvalidSig => true | _ => false end &&
+      match accept H yes (eip778_example ++ [0]) with EErr (ERlp ErrMoreThanOneValue) => true | _ => false end &&
+      (* ip and id swapped: same length, unsorted *)
+      match Enr.decode (encode_fields (r_sig r) (r_seq r)
+                          (match r_pairs r with a :: b :: t => b :: a :: t | l => l end)) with
+      | EErr ENotSorted => true | _ => false end
+  | EErr _ => false
+  end.
